@@ -28,5 +28,8 @@ class Reifier:
 def reify_entry(ex, model):
     R = Reifier(model)
     out = {k: R.val(v) for k, v in ex.entry.env.items() if isinstance(v, Val)}
-    out["__rng__"] = [(kind, R.val(Val(REAL if kind == "random" else INT, r))) for kind, r in ex.rng_log]
+    def rng(kind, r):
+        try: return R.val(Val(REAL if kind == "random" else INT, r))
+        except Exception: return str(r)[:80]       # a ghost pick array / permutation: shown symbolically
+    out["__rng__"] = [(kind, rng(kind, r)) for kind, r in ex.rng_log]
     return out
